@@ -1,19 +1,21 @@
-(* The lexer's output alphabet, shared by the lexer models (Lex/) and the parser model (Parse/).
+(* Constructor names carry a prefix (Tk, I, E) because the extraction is one flat OCaml file:
+   every constructor, type and record field name must be unique across the whole development.
+   The lexer's output alphabet, shared by the lexer models (Lex/) and the parser model (Parse/).
    crates/apollo-parser/src/lexer/token_kind.rs and the Iterator impl of Lexer. *)
 From ApolloVerif Require Import Base.Chars.
 
 Inductive tkind :=
-| Whitespace | Comment | Bang | Dollar | Amp | Spread | Comma | Colon | Eq | At
-| LParen | RParen | LBracket | RBracket | LCurly | RCurly | Pipe | Eof
-| Name | StringValue | Int | Float.
+| TkWhitespace | TkComment | TkBang | TkDollar | TkAmp | TkSpread | TkComma | TkColon | TkEq | TkAt
+| TkLParen | TkRParen | TkLBracket | TkRBracket | TkLCurly | TkRCurly | TkPipe | TkEof
+| TkName | TkStringValue | TkInt | TkFloat.
 
 Definition tkind_eqb (a b : tkind) : bool :=
   match a, b with
-  | Whitespace, Whitespace | Comment, Comment | Bang, Bang | Dollar, Dollar | Amp, Amp
-  | Spread, Spread | Comma, Comma | Colon, Colon | Eq, Eq | At, At | LParen, LParen
-  | RParen, RParen | LBracket, LBracket | RBracket, RBracket | LCurly, LCurly
-  | RCurly, RCurly | Pipe, Pipe | Eof, Eof | Name, Name | StringValue, StringValue
-  | Int, Int | Float, Float => true
+  | TkWhitespace, TkWhitespace | TkComment, TkComment | TkBang, TkBang | TkDollar, TkDollar | TkAmp, TkAmp
+  | TkSpread, TkSpread | TkComma, TkComma | TkColon, TkColon | TkEq, TkEq | TkAt, TkAt | TkLParen, TkLParen
+  | TkRParen, TkRParen | TkLBracket, TkLBracket | TkRBracket, TkRBracket | TkLCurly, TkLCurly
+  | TkRCurly, TkRCurly | TkPipe, TkPipe | TkEof, TkEof | TkName, TkName | TkStringValue, TkStringValue
+  | TkInt, TkInt | TkFloat, TkFloat => true
   | _, _ => false
   end.
 
@@ -27,10 +29,10 @@ Proof. destruct a, b; cbn; split; congruence. Qed.
 Inductive eclass := ELex | ELimit.
 
 Inductive item :=
-| Tok (k : tkind) (data : str) (index : N)
-| Err (c : eclass) (data : str) (index : N).
+| ITok (k : tkind) (data : str) (index : N)
+| IErr (c : eclass) (data : str) (index : N).
 
 Definition item_data (i : item) : str :=
-  match i with Tok _ d _ => d | Err _ d _ => d end.
+  match i with ITok _ d _ => d | IErr _ d _ => d end.
 Definition item_index (i : item) : N :=
-  match i with Tok _ _ n => n | Err _ _ n => n end.
+  match i with ITok _ _ n => n | IErr _ _ n => n end.
